@@ -362,7 +362,7 @@ impl Driver {
                 let now = (g.steps, g.idle_switches, g.current);
                 if now == seen {
                     stale += 1;
-                    if stale >= 12 {
+                    if stale >= 40 {
                         let cur = g.current;
                         let dump: Vec<String> = g.threads.iter().enumerate().map(|(i, t)| format!("{i}:{}:{:?}:tok={}", t.role, t.state, t.token)).collect();
                         let last: Vec<String> = g.trace.iter().rev().take(8).map(|e| format!("{} {} {:?}", e.tid, e.kind, e.a)).collect();
